@@ -202,8 +202,36 @@ def check(prog, run):
     if "self._schema.types.get(" not in txt or "NonNullType(" not in txt or "ListType(" not in txt:
         run.report(r, "%s:_HealSchemaVisitor._healed:shape" % HEAL, hd.where(), "_healed does not resolve through the registry / rebuild wrappers")
     rep = sch.find_method("_replace_types_and_directives")
+    # values assigned to the three roots: direct `self.<root> = V`, or `setattr(self, <var>, V)` in a loop over the root names
+    root_values = {}
+    for n in own_nodes(rep.node):
+        if isinstance(n, ast.Assign) and isinstance(n.targets[0], ast.Attribute) and ast.unparse(n.targets[0].value) == "self":
+            root_values.setdefault(n.targets[0].attr, []).append((n, n.value))
+        if isinstance(n, ast.Call) and isinstance(n.func, ast.Name) and n.func.id == "setattr" and len(n.args) == 3 and ast.unparse(n.args[0]) == "self" \
+                and isinstance(n.args[1], ast.Name):
+            cur = n
+            while getattr(cur, "_parent", None) is not None and cur is not rep.node:
+                par = cur._parent
+                if isinstance(par, ast.For) and isinstance(par.target, ast.Name) and par.target.id == n.args[1].id and isinstance(par.iter, (ast.Tuple, ast.List)):
+                    for el in par.iter.elts:
+                        if isinstance(el, ast.Constant) and isinstance(el.value, str):
+                            root_values.setdefault(el.value, []).append((n, n.args[2]))
+                cur = par
+
+    def _registry_lookup_with_none(site, v):
+        """`<registry>.get(<name>)` (None when the type is gone), not guarded by a condition that keeps the old value otherwise."""
+        has_get = any(isinstance(x, ast.Call) and isinstance(x.func, ast.Attribute) and x.func.attr == "get" and "types" in ast.unparse(x.func.value) for x in ast.walk(v))
+        if not has_get:
+            return False
+        cur = site
+        while getattr(cur, "_parent", None) is not None and cur is not rep.node:
+            par = cur._parent
+            if isinstance(par, ast.If) and any(cur is b for b in par.body) and "types" in ast.unparse(par.test):
+                return False   # assignment only when the name is still registered: the removal case keeps the stale root
+            cur = par
+        return True
     for root in ("query_type", "mutation_type", "subscription_type"):
-        ok = any(isinstance(n, ast.Assign) and ast.unparse(n.targets[0]) == "self.%s" % root and "self.types.get(" in ast.unparse(n.value) for n in own_nodes(rep.node))
+        ok = any(_registry_lookup_with_none(site, v) for site, v in root_values.get(root, []))
         r.instance("root %s re-read from the registry: %s" % (root, ok))
         if not ok:
             run.report(r, "%s:Schema._replace_types_and_directives:root(%s)" % (SCHEMA, root), rep.where(), "%s is not re-read from the registry after replacement" % root)
